@@ -1618,11 +1618,43 @@ func (w *w1World) checkLiveness(cl *w1SimClient) {
 // checkRecoverReply is the C02 (stream) / C03 (cache) oracle for one recovering
 // subscribe issued at quiescence. Ground truth is what the broker retains right now.
 func (w *w1World) checkRecoverReply(cl *w1SimClient, id uint32, req *protocol.SubscribeRequest) {
-	s := w.s
 	f := w.waitReply(cl, id)
 	if f == nil {
 		return
 	}
+	w.checkRecoverResult(req, f)
+}
+
+// checkConnectRecover judges the recovery results of connect-time server-side
+// subscriptions (positions sent in ConnectRequest.Subs) with the same oracle.
+func (w *w1World) checkConnectRecover(cl *w1SimClient, id uint32, reqs map[string]*protocol.SubscribeRequest) {
+	f := w.waitReply(cl, id)
+	if f == nil || f.Kind != "connect" {
+		return
+	}
+	var chs []string
+	for ch := range reqs {
+		chs = append(chs, ch)
+	}
+	sort.Strings(chs)
+	for _, ch := range chs {
+		r := f.Subs[ch]
+		if r == nil {
+			continue
+		}
+		req := *reqs[ch]
+		req.Channel = ch
+		sub := &w1Frame{Kind: "subscribe", Ch: ch, Seq: f.Seq, Offset: r.Offset, Epoch: r.Epoch, Recovered: r.Recovered, WasRecovering: r.WasRecovering}
+		for _, p := range r.Publications {
+			sub.Pubs = append(sub.Pubs, toW1Pub(p))
+		}
+		w.s.Probe("connect_time_recovery_checked")
+		w.checkRecoverResult(&req, sub)
+	}
+}
+
+func (w *w1World) checkRecoverResult(req *protocol.SubscribeRequest, f *w1Frame) {
+	s := w.s
 	ch := req.Channel
 	if w.sc.Cfg.ConcurrentRecovery {
 		// publishers are active: only the clauses that need no quiescent ground truth
@@ -1640,6 +1672,16 @@ func (w *w1World) checkRecoverReply(cl *w1SimClient, id uint32, req *protocol.Su
 		if f.Recovered && prop == "C02" {
 			next := req.Offset + 1
 			for _, p := range f.Pubs {
+				// offsets the subscription's filters withhold are legitimately absent
+				for (chHas(ch, 'f') || req.Tf != nil) && next < p.Offset {
+					t := w.truth(ch, next, f.Epoch)
+					if t != nil && (t.Tags["s"] == "1" || !chHas(ch, 'f')) && (t.Tags["c"] == "1" || req.Tf == nil) {
+						break // visible and yet missing: judged below
+					}
+					// filtered out (or its publish call has not returned yet, so its tags
+					// are not known to the observer: not judged)
+					next++
+				}
 				if p.Offset != next {
 					sig := "recovered=true but the recovered publications are not contiguous from the requested offset"
 					if p.Offset == req.Offset && next == req.Offset+1 {
@@ -1700,6 +1742,18 @@ func (w *w1World) checkRecoverReply(cl *w1SimClient, id uint32, req *protocol.Su
 				expected = append(expected, p)
 			}
 		}
+		// what the subscription's filters let through (the channel's server filter s==1
+		// and, when the request carried one, the client filter c==1; a publication
+		// without the tag does not match an eq filter)
+		visible := func(p *Publication) bool {
+			if chHas(ch, 'f') && p.Tags["s"] != "1" {
+				return false
+			}
+			if req.Tf != nil && p.Tags["c"] != "1" {
+				return false
+			}
+			return true
+		}
 		next := req.Offset + 1
 		for _, p := range expected {
 			if p.Offset != next {
@@ -1715,6 +1769,27 @@ func (w *w1World) checkRecoverReply(cl *w1SimClient, id uint32, req *protocol.Su
 		if lim := w.sc.Cfg.RecoveryMax; lim > 0 && len(expected) > lim {
 			s.Violate("C02", "recovered-truncated", "recovered=true although the recovery limit truncated the result", "%s: %d publications to recover, RecoveryMaxPublicationLimit %d, recovered=true with %d publications", ch, len(expected), lim, len(f.Pubs))
 			return
+		}
+		if chHas(ch, 'f') || req.Tf != nil {
+			var vis []*Publication
+			for _, p := range expected {
+				if visible(p) {
+					vis = append(vis, p)
+				} else {
+					s.Probe("c02_filtered_out_of_recovery")
+				}
+			}
+			for _, g := range f.Pubs {
+				for _, p := range expected {
+					if p.Offset == g.Offset && !visible(p) {
+						for _, pr := range []string{"C02", "C16"} {
+							s.Violate(pr, "recovered-filtered-publication", "recovered publications include one the subscription's filters withhold", "%s: recovered offset %d tags %v although filters (server s==1, client filter used=%v) exclude it", ch, g.Offset, p.Tags, req.Tf != nil)
+						}
+						return
+					}
+				}
+			}
+			expected = vis
 		}
 		if len(f.Pubs) != len(expected) {
 			s.Violate("C02", "recovered-inexact", "recovered publications differ from history", "%s requested offset %d: %d publications returned, history has %d after it", ch, req.Offset, len(f.Pubs), len(expected))
@@ -1739,9 +1814,33 @@ func (w *w1World) checkRecoverReply(cl *w1SimClient, id uint32, req *protocol.Su
 	}
 	newestPresent := newest != nil && newest.Offset == top.Offset
 	sameState := req.Offset > 0 && req.Offset == top.Offset && req.Epoch == top.Epoch
+	// the newest publication that passes the server filter of the channel and the client
+	// filter of the request
+	newestVisible := newest
+	if chHas(ch, 'f') || req.Tf != nil {
+		newestVisible = nil
+		for i := len(retained) - 1; i >= 0; i-- {
+			p := retained[i]
+			if chHas(ch, 'f') && p.Tags["s"] != "1" {
+				continue
+			}
+			if req.Tf != nil && p.Tags["c"] != "1" {
+				continue
+			}
+			newestVisible = p
+			break
+		}
+		if newestVisible != newest {
+			s.Probe("c03_newest_filtered_out")
+		}
+	}
 	if len(f.Pubs) == 1 {
-		if newest == nil || f.Pubs[0].Offset != newest.Offset || f.Pubs[0].Data != string(newest.Data) {
-			s.Violate("C03", "not-newest", "cache recovery delivered a publication that is not the newest", "%s: delivered offset %d %s, newest retained %v, top %d", ch, f.Pubs[0].Offset, f.Pubs[0].Data, newest, top.Offset)
+		if newestVisible == nil || f.Pubs[0].Offset != newestVisible.Offset || f.Pubs[0].Data != string(newestVisible.Data) {
+			sig := "cache recovery delivered a publication that is not the newest"
+			if newestVisible != newest {
+				sig = "cache recovery delivered a publication that is not the newest one visible through the server and client tags filters"
+			}
+			s.Violate("C03", "not-newest", sig, "%s: delivered offset %d %s, newest visible %v, newest retained %v, top %d", ch, f.Pubs[0].Offset, f.Pubs[0].Data, newestVisible, newest, top.Offset)
 		}
 	}
 	want := newestPresent || sameState
